@@ -37,11 +37,11 @@ impl Preset {
             Preset::SerdeXmlRs => Options::serde_xml_rs(),
         }
     }
-    fn attr_prefix(&self) -> &'static str {
-        match self {
-            Preset::QuickXml => "@",
-            Preset::SerdeXmlRs => "",
-        }
+    fn attr_prefix(&self) -> String {
+        self.options().attribute_prefix
+    }
+    fn text_key(&self) -> String {
+        self.options().text_identifier
     }
 }
 
@@ -573,7 +573,7 @@ fn compare_value(preset: Preset, e: &Elem, v: &Value, path: &str, losses: &mut V
     }
     if e.has_significant_text() {
         let want = norm(&e.text_value());
-        match obj.get("$text") {
+        match obj.get(&preset.text_key()) {
             Some(Value::String(s)) if norm(s) == want => {}
             other => {
                 let sig = if preset == Preset::SerdeXmlRs && matches!(other, Some(Value::Null)) {
